@@ -30,7 +30,7 @@ def scenarios(tier):
     for targets in (["M0"], ["M0", "M1"], ["M1"], ["M0", "M1", "M2"]):
         for r in (0.25, 0.125):
             for tick in (1.0, 0.5):
-                for shape in ("noexec_first", "exec_only", "rule_in_session1"):
+                for shape in ("noexec_first", "exec_only", "rule_in_session1", "rule_after_a_trading_session"):
                     for enabled in (True, False):
                         if not enabled and (r != 0.25 or tick != 1.0 or shape != "exec_only"):
                             continue
@@ -46,18 +46,24 @@ def scenarios(tier):
                             sessions = [S(0, 2, True, False, maxNormalOrders=2, events=["PL"]), S(1, 2, True, True, maxNormalOrders=2)]
                         elif shape == "exec_only":
                             sessions = [S(0, 3, True, True, maxNormalOrders=2, events=["PL"])]
+                        elif shape == "rule_after_a_trading_session":
+                            # the rule comes into force in the second session, after a session WITH execution and without
+                            # the rule has moved the prices far away from their time-0 values (the band stays where it was)
+                            if len(targets) > 2 or (r, tick) == (0.125, 0.5):
+                                continue
+                            sessions = [S(0, 2, True, True, maxNormalOrders=2), S(1, 3, True, True, maxNormalOrders=2, events=["PL"])]
                         else:
                             sessions = [S(0, 1, True, False, maxNormalOrders=2), S(1, 3, True, True, maxNormalOrders=2, events=["PL"])]
                         sc[name] = Scenario(name, mkcfg(sessions, markets=markets, agents=ags, events=ev),
                                             meta=dict(limit_rule=dict(targets=targets, r=r, enabled=enabled)))
-                        if enabled and r == 0.25 and tick == 1.0 and len(targets) <= 2 and shape != "rule_in_session1":
+                        if enabled and r == 0.25 and tick == 1.0 and len(targets) <= 2 and shape in ("noexec_first", "exec_only"):
                             # the same run with a high-frequency agent (the runner's second dispatch path) sending out-of-band orders
                             n3 = name + "-hft_agent"
                             ags3 = ags + [dict(name="H0", cls="ScriptedHFAgent", menu=menu, program=[3, 4, 1, 2], markets=["M0", "M1", "M2"])]
                             s3 = [dict(x, maxHighFrequencyOrders=1, highFrequencySubmitRate=1.0) for x in sessions]
                             sc[n3] = Scenario(n3, mkcfg(s3, markets=markets, agents=ags3, events=ev),
                                               meta=dict(limit_rule=dict(targets=targets, r=r, enabled=enabled)))
-                        if enabled and r == 0.25 and tick == 1.0 and len(targets) == 1 and shape != "rule_in_session1":
+                        if enabled and r == 0.25 and tick == 1.0 and len(targets) == 1 and shape in ("noexec_first", "exec_only"):
                             # the same run with other events (a halt rule too wide to act, a fundamental shock on M2) listed
                             # before / after the price limit rule
                             import copy
